@@ -408,8 +408,8 @@ Definition ith_leaf_bytes (m : msg) (ith : N) : out (option (list byte)) :=
 
 (* what a querySession holds after getNode *)
 Inductive dnode :=
-| DLeaf (ith : N) (tail : option (list byte))
-| DInner (ith wsz from to : N)
+| DnLeaf (ith : N) (tail : option (list byte))
+| DnInner (ith wsz from to : N)
          (bm : N)                       (* qr.bm: meaningful iff to - from = ShortSize *)
          (plen : N)                     (* innerPrefixLen, in bits *)
          (pfx : option (list byte)).    (* innerPrefix (a bitstr) when hasInnerPrefix *)
@@ -418,20 +418,20 @@ Inductive dnode :=
 Definition get_leaf_prefix (m : msg) (id ith_inner : N) : out dnode :=
   let ith := id - ith_inner in
   match m_leafpfx m with
-  | None => Val (DLeaf ith None)
+  | None => Val (DnLeaf ith None)
   | Some lp =>
     match v_presence lp with
     | None => Panic
     | Some pres =>
       doo has <- get_bit (b_words pres) ith;
-      if negb has then Val (DLeaf ith None)
+      if negb has then Val (DnLeaf ith None)
       else
         doo (ithpref, _) <- rank64 (b_words pres) (b_rank pres) ith;
         match v_position lp with
         | None => Panic
         | Some ps =>
           doo bs <- vlen_var_elt ps (v_bytes lp) ithpref;
-          Val (DLeaf ith (Some bs))
+          Val (DnLeaf ith (Some bs))
         end
     end
   end.
@@ -506,7 +506,7 @@ Definition get_node (m : msg) (vs : vars) (id : N) : out dnode :=
     else
       doo (wsz, from, to, bm) <- inner_range m vs ith;
       doo (plen, pfx) <- inner_prefix m ith;
-      Val (DInner ith wsz from to bm plen pfx)
+      Val (DnInner ith wsz from to bm plen pfx)
   end.
 
 Definition inner_words (m : msg) : out (list N * list N) :=
@@ -549,8 +549,8 @@ Definition nibs_of_bytes (bs : list byte) : list nat :=
 Definition get_view (m : msg) (vs : vars) (id : N) : out nview :=
   doo d <- get_node m vs id;
   match d with
-  | DLeaf ith tail => Val (VLeaf (N.to_nat id) (N.to_nat ith) tail)
-  | DInner _ wsz from to bm plen pfx =>
+  | DnLeaf ith tail => Val (VLeaf (N.to_nat id) (N.to_nat ith) tail)
+  | DnInner _ wsz from to bm plen pfx =>
     doo labels <- node_labels m from to bm;
     doo fc <- first_child m from;
     Val (VInner (N.to_nat id) (wsz =? 8)
